@@ -3,7 +3,7 @@
 out=$1; shift
 : > "$out"
 run_one() {
-  p=$1; out=$2
+  p=$(realpath "$1"); out=$2
   d=$(mktemp -d /tmp/lw-tp-XXXXXX); rmdir "$d"
   git -C /repo worktree add -q --detach "$d" HEAD
   if git -C "$d" apply "$p" 2>/dev/null; then
